@@ -9,6 +9,7 @@ field; numbers live in `Ext K`.
 import Rooc.LpFormat
 import Rooc.Proofs.Field
 import Rooc.Proofs.LpBasic
+import Rooc.Proofs.LpParse
 import Mathlib.Data.Rat.Floor
 import Mathlib.Data.List.Nodup
 namespace Rooc.Props.C17
@@ -151,5 +152,85 @@ theorem denote_ranges (lm : LinModel (Ext K)) (hnames : (lm.domain.map (·.name)
       have h2 : ¬ d.name ∈ generalNames lm.domain := fun h => by
         obtain ⟨_, _, e⟩ := hgen.mp h; rw [e] at hty; cases hty
       simp [h1, h2, domainKind]
+
+/-! ### the round trip -/
+
+/-- **The LP export denotes the same model.**  For every well-formed linear model — names that are
+valid LP names and not words of the format, finite coefficients / right-hand sides / offset, bounds
+that are numbers or infinities — and every printer/lexer pair for the opaque number tokens that
+satisfies `TokOk` on the numbers of the model, the independent LP reader applied to the exported text
+returns exactly the problem the model stands for: sense, objective terms and constant, rows (name,
+terms, relation, right-hand side), `Bounds` entries, `Binary` and `General` markings.
+(`denote_ranges` turns the entries into the per-variable ranges.) -/
+theorem read_write (tok : Ext K → List Char) (lexN : List Char → Option (Ext K)) (lm : LinModel (Ext K))
+    (wf : WellFormed tok lexN lm) : readLP lexN (writeLP tok lm) = some (denote lm) := by
+  unfold readLP
+  rw [lexLP_writeLP tok lexN lm wf]
+  exact parseLP_linesLP tok lexN lm wf
+
+/-! non-vacuity of `read_write`: integer-valued numbers printed in decimal (over ℚ, with the same
+`ExactField` instance the theorems use) -/
+attribute [local instance 10000] fieldExact
+
+/-- decimal printer for integer-valued numbers -/
+noncomputable def exTok : Ext ℚ → List Char
+  | .fin q => if q < 0 then '-' :: natChars q.num.natAbs else natChars q.num.natAbs
+  | _ => "?".toList
+/-- decimal lexer -/
+def exLex (s : List Char) : Option (Ext ℚ) := some (.fin ((Nat.ofDigitChars 10 s 0 : ℕ) : ℚ))
+
+theorem exTokOk (z : ℤ) : TokOk exTok exLex (.fin (z : ℚ)) := by
+  constructor
+  · intro h
+    have hz : ¬ ((z : ℚ) < 0) := by simpa [Arith.lt, Ext.lt, Arith.zero, Arith.ofInt] using h
+    have hz' : 0 ≤ z := by exact_mod_cast not_lt.mp hz
+    simp only [exTok, hz, if_false, Rat.num_intCast]
+    refine ⟨numWord_natChars _, ?_⟩
+    simp only [exLex, natChars, Nat.ofDigitChars_ten_toDigits]
+    congr 2
+    have h1 : ((z.natAbs : ℕ) : ℤ) = z := Int.natAbs_of_nonneg hz'
+    calc ((z.natAbs : ℕ) : ℚ) = (((z.natAbs : ℕ) : ℤ) : ℚ) := (Int.cast_natCast _).symm
+      _ = (z : ℚ) := by rw [h1]
+  · intro h
+    have hz : (z : ℚ) < 0 := by simpa [Arith.lt, Ext.lt, Arith.zero, Arith.ofInt] using h
+    have hz' : z < 0 := by exact_mod_cast hz
+    have habs : Arith.abs (Ext.fin (z : ℚ) : Ext ℚ) = .fin ((-z : ℤ) : ℚ) := by
+      simp [Arith.abs, Ext.abs, hz]
+    rw [habs]
+    have hnn : ¬ (((-z : ℤ) : ℚ) < 0) := by
+      have : (0:ℚ) < ((-z : ℤ) : ℚ) := by exact_mod_cast (by omega : (0:ℤ) < -z)
+      exact not_lt.mpr this.le
+    simp only [exTok, hz, if_true, hnn, if_false, Rat.num_intCast, Int.natAbs_neg]
+
+/-- a small well-formed model: `max 3x` s.t. `-2x <= 4`, `x` integer in `[-1, 5]`. -/
+example : WellFormed exTok exLex
+    ({ optType := .max, objective := [.fin 3], offset := .fin 0, vars := ["x"],
+       domain := [⟨"x", .int (-1) 5, 1⟩], rows := [⟨"", [.fin (-2)], .le, .fin 4⟩] } : LinModel (Ext ℚ)) := by
+  have key : ∀ z : ℤ, TokOk exTok exLex (.fin (z : ℚ)) ∧ TokOk exTok exLex (Arith.abs (.fin (z : ℚ))) := by
+    intro z
+    refine ⟨exTokOk z, ?_⟩
+    have : Arith.abs (Ext.fin (z : ℚ) : Ext ℚ) = .fin ((|z| : ℤ) : ℚ) := by
+      simp only [Arith.abs, Ext.abs]
+      split <;> rename_i h <;> simp at h
+      · have : z < 0 := by exact_mod_cast h
+        simp [abs_of_neg this]
+      · have : 0 ≤ z := by exact_mod_cast h
+        simp [abs_of_nonneg this]
+    rw [this]; exact exTokOk _
+  refine ⟨by decide, by simp, by decide, ?_, by simp [boundNums], ?_, ?_, ?_⟩
+  · intro v hv
+    simp [coefNums] at hv
+    rcases hv with rfl | rfl | rfl | rfl <;> rfl
+  · intro v hv _
+    simp [coefNums, boundNums] at hv
+    rcases hv with rfl | rfl | rfl | rfl
+    · exact_mod_cast key 3
+    · exact_mod_cast key 0
+    · exact_mod_cast key (-2)
+    · exact_mod_cast key 4
+  · simp [exLex, Nat.ofDigitChars, Arith.zero, Arith.ofInt]
+  · intro i hi
+    simp [intBounds] at hi
+    rcases hi with rfl | rfl <;> simp [exLex, natChars, Nat.ofDigitChars_ten_toDigits, Arith.ofInt]
 
 end Rooc.Props.C17
